@@ -272,7 +272,10 @@ impl<'a> RunGen<'a> {
     fn gen_req(&self, rng: &mut Rng, mask: GenMask, bodies: &mut Vec<String>) -> ReqSpec {
         let get = |headers| ReqSpec { method: "GET".into(), path: "/".into(), version: "1.1".into(), headers, body: BodySpec::None, framing: Framing::None, raw: None };
         let post = |body: Vec<u8>, framing: Framing, headers| ReqSpec { method: "POST".into(), path: "/".into(), version: "1.1".into(), headers, body: BodySpec::Bytes(body), framing, raw: None };
-        let k = rng.weighted(&[15, 35, 12, 8, 4, 4, 3, 6, 5, 2, 3, if self.thorough { 1 } else { 0 }]);
+        // the 2 MiB boundary is part of the contract: exercised in every tier, at
+        // most once per run (bodies.len() doubles as "early in the run" here)
+        let boundary = if self.thorough || bodies.len() < 2 { 1 } else { 0 };
+        let k = rng.weighted(&[15, 35, 12, 8, 4, 4, 3, 6, 5, 2, 3, boundary]);
         match k {
             0 => get(extra_headers(rng)),
             1 => {
